@@ -329,7 +329,8 @@ func refererMatchesHost(c fiber.Ctx, trustedOrigins []string, trustedSubOrigins 
 		return nil
 	}
 
-	referer = refererURL.String()
+	// compare the referer's origin (scheme and host), not the whole URL including its path
+	referer = refererURL.Scheme + "://" + refererURL.Host
 
 	for _, trustedOrigin := range trustedOrigins {
 		if referer == trustedOrigin {
